@@ -4,7 +4,7 @@ import NixModel.Lemmas.C20Local
 # C20 — every API call addressed to the copy's side is a local update (`LocalUpd`)
 
 For each operation of `Store/Step.lean`: if the entity it is called on — and every entity handed
-to it as an argument — is a node `≥ N`, the resulting graph is a `LocalUpd` of the graph before.
+to it as an argument — is a node of the side `S`, the resulting graph is a `LocalUpd` of the graph before.
 Global deletion (`Container.__delitem__` of plain / section / source containers = `delete_all` by
 id) additionally needs `IdInv`: the deleted ids are carried by nodes of the side only.
 `run_local` lifts this to histories.
@@ -12,14 +12,14 @@ id) additionally needs `IdInv`: the deleted ids are carried by nodes of the side
 namespace Nix.Store.C20
 open Nix.Store Nix.Store.Graph Nix.Store.Lemmas
 
-variable {N M : Nat}
+variable {S : Nat → Prop} {M : Nat} {A : Nat → Prop}
 
-theorem resolve_ge {g : Graph} (hI : SideInv N M g) {l l' : Loc} {p : Path} (hl : N ≤ l.key)
-    (h : resolve g l p = some l') : N ≤ l'.key :=
-  resolve_closed (S := fun k => N ≤ k) (fun k hk l hl => hI.closed k hk l hl) hl h
+theorem resolve_ge {g : Graph} (hI : SideInv S M g) {l l' : Loc} {p : Path} (hl : S l.key)
+    (h : resolve g l p = some l') : S l'.key :=
+  resolve_closed (S := fun k => S k) (fun k hk l hl => hI.closed k hk l hl) hl h
 
-theorem child_ge {g : Graph} (hI : SideInv N M g) {k c : Nat} {n : String} (hk : N ≤ k)
-    (h : g.child? k n = some c) : N ≤ c := hI.closed k hk (n, c) (child?_some_mem h)
+theorem child_ge {g : Graph} (hI : SideInv S M g) {k c : Nat} {n : String} (hk : S k)
+    (h : g.child? k n = some c) : S c := hI.closed k hk (n, c) (child?_some_mem h)
 
 theorem attrAllowed_ne_id {kind attr : String} (h : attrAllowed kind attr = true) : attr ≠ "entity_id" := by
   intro e
@@ -28,8 +28,8 @@ theorem attrAllowed_ne_id {kind attr : String} (h : attrAllowed kind attr = true
 
 /-- attribute setters -/
 theorem lu_setAttrOp {g g' : Graph} {p : Path} {a : String} {v : Option String} {o : Loc}
-    (hr : resolve g rootLoc p = some o) (ho : N ≤ o.key) (hop : setAttrOp g p a v = .ok g') :
-    LocalUpd N M g g' := by
+    (hr : resolve g rootLoc p = some o) (ho : S o.key) (hop : setAttrOp g p a v = .ok g') :
+    LocalUpd S M g g' := by
   unfold setAttrOp at hop
   rw [hr] at hop
   simp only at hop
@@ -44,8 +44,8 @@ theorem lu_setAttrOp {g g' : Graph} {p : Path} {a : String} {v : Option String} 
 /-- role links (`metadata`, `link`, `positions`, `extents`, feature `data`): set or removed on the
 addressed node -/
 theorem lu_setRole {g g' : Graph} {p : Path} {role : String} {target : Option Nat} {o : Loc}
-    (hr : resolve g rootLoc p = some o) (ho : N ≤ o.key) (ht : ∀ t, target = some t → N ≤ t)
-    (hop : setRole g p role target = .ok g') : LocalUpd N M g g' := by
+    (hr : resolve g rootLoc p = some o) (ho : S o.key) (ht : ∀ t, target = some t → S t)
+    (hop : setRole g p role target = .ok g') : LocalUpd S M g g' := by
   unfold setRole at hop
   rw [hr] at hop
   simp only at hop
@@ -58,9 +58,9 @@ theorem lu_setRole {g g' : Graph} {p : Path} {role : String} {target : Option Na
     | exact (lu_setAttr g "target_type" _ ho (by decide)).trans (lu_createLinkIn _ _ ho (ht _ rfl))
 
 /-- `Section.create_property` -/
-theorem lu_createProperty {g g' : Graph} (hI : SideInv N M g) {p : Path} {name : String} {o : Loc}
-    (hr : resolve g rootLoc p = some o) (ho : N ≤ o.key) (hop : createProperty g p name = .ok g') :
-    LocalUpd N M g g' := by
+theorem lu_createProperty {g g' : Graph} (hI : SideInv S M g) {p : Path} {name : String} {o : Loc}
+    (hr : resolve g rootLoc p = some o) (ho : S o.key) (hop : createProperty g p name = .ok g') :
+    LocalUpd S M g g' := by
   unfold createProperty at hop
   rw [hr] at hop
   simp only at hop
@@ -69,7 +69,7 @@ theorem lu_createProperty {g g' : Graph} (hI : SideInv N M g) {p : Path} {name :
   have h1 := lu_ensureGroup (M := M) hI "properties" ho
   have hc := ensureGroup_ge hI "properties" ho
   have hI1 := h1.inv hI
-  have hd : N ≤ ((g.ensureGroup o.key "properties").1.newNode .dataset).2 := hI1.nk
+  have hd : S ((g.ensureGroup o.key "properties").1.newNode .dataset).2 := hI1.next
   have hni : M ≤ (((g.ensureGroup o.key "properties").1.newNode NKind.dataset).1.addLink
       (g.ensureGroup o.key "properties").2 name
       ((g.ensureGroup o.key "properties").1.newNode NKind.dataset).2).nextId := by
@@ -113,15 +113,15 @@ theorem entityCreateNew_is_ecn' {g g' : Graph} {ownerKey k : Nat} {cname name ty
 
 /-- `Entity.create_new` in a container of a node of the side: a local update, and the entity it
 returns lies on the side -/
-theorem lu_entityCreateNew {g g' : Graph} (hI : SideInv N M g) {owner k : Nat} {cname name type kind : String}
-    (ho : N ≤ owner) (hop : entityCreateNew g owner cname name type kind = .ok (g', k)) :
-    LocalUpd N M g g' ∧ N ≤ k := by
+theorem lu_entityCreateNew {g g' : Graph} (hI : SideInv S M g) {owner k : Nat} {cname name type kind : String}
+    (ho : S owner) (hop : entityCreateNew g owner cname name type kind = .ok (g', k)) :
+    LocalUpd S M g g' ∧ S k := by
   obtain ⟨nm, e⟩ := entityCreateNew_is_ecn' hop
   rw [ecn_eq] at e
   simp only [Prod.mk.injEq] at e
   obtain ⟨hg, hk⟩ := e
   unfold ecnG2 at hg hk
-  have h0 := lu_freshId (N := N) (M := M) g
+  have h0 := lu_freshId (S := S) (M := M) g
   have hI0 := h0.inv hI
   have h1 := lu_ensureGroup hI0 cname ho
   have hc := ensureGroup_ge hI0 cname ho
@@ -141,9 +141,9 @@ theorem lu_entityCreateNew {g g' : Graph} (hI : SideInv N M g) {owner k : Nat} {
   exact h0.trans (h1.trans h2)
 
 /-- `Section.create_section` (on a section; `File.create_section` is a call on the file, not on the copy) -/
-theorem lu_createSection {g g' : Graph} (hI : SideInv N M g) {p : Path} {name type : String} {o : Loc}
-    (hp : p ≠ []) (hr : resolve g rootLoc p = some o) (ho : N ≤ o.key)
-    (hop : createSection g p name type = .ok g') : LocalUpd N M g g' := by
+theorem lu_createSection {g g' : Graph} (hI : SideInv S M g) {p : Path} {name type : String} {o : Loc}
+    (hp : p ≠ []) (hr : resolve g rootLoc p = some o) (ho : S o.key)
+    (hop : createSection g p name type = .ok g') : LocalUpd S M g g' := by
   cases p with
   | nil => exact absurd rfl hp
   | cons s ps =>
@@ -159,16 +159,16 @@ theorem lu_createSection {g g' : Graph} (hI : SideInv N M g) {p : Path} {name ty
       cases hop
       exact h1.trans (lu_entityCreateNew (h1.inv hI) ho he).1
 
-theorem lu_addDataset {g : Graph} (hI : SideInv N M g) {k : Nat} (name : String) (hk : N ≤ k) :
-    LocalUpd N M g (addDataset g k name) := by
+theorem lu_addDataset {g : Graph} (hI : SideInv S M g) {k : Nat} (name : String) (hk : S k) :
+    LocalUpd S M g (addDataset g k name) := by
   unfold addDataset
   split
   · exact LocalUpd.refl g
-  · exact (lu_newNode g .dataset).trans (lu_addLink _ name hk hI.nk)
+  · exact (lu_newNode g .dataset).trans (lu_addLink _ name hk hI.next)
 
-theorem lu_createIn {g g' : Graph} (hI : SideInv N M g) {p : Path} {what name type : String} {extra : Option Nat}
-    {o : Loc} (hr : resolve g rootLoc p = some o) (ho : N ≤ o.key) (hx : ∀ t, extra = some t → N ≤ t)
-    (hop : createIn g p what name type extra = .ok g') : LocalUpd N M g g' := by
+theorem lu_createIn {g g' : Graph} (hI : SideInv S M g) {p : Path} {what name type : String} {extra : Option Nat}
+    {o : Loc} (hr : resolve g rootLoc p = some o) (ho : S o.key) (hx : ∀ t, extra = some t → S t)
+    (hop : createIn g p what name type extra = .ok g') : LocalUpd S M g g' := by
   unfold createIn at hop
   simp only [hr] at hop
   split at hop
@@ -177,7 +177,7 @@ theorem lu_createIn {g g' : Graph} (hI : SideInv N M g) {p : Path} {what name ty
     split at hop
     · cases hop
     · generalize hg0 : (if (kindOf g o.key == "source") = true then (g.ensureGroup o.key cname).fst else g) = g0 at hop
-      have h0 : LocalUpd N M g g0 := by
+      have h0 : LocalUpd S M g g0 := by
         rw [← hg0]; split
         · exact lu_ensureGroup hI cname ho
         · exact LocalUpd.refl g
@@ -192,16 +192,16 @@ theorem lu_createIn {g g' : Graph} (hI : SideInv N M g) {p : Path} {what name ty
         | exact h0.trans (lu_entityCreateNew hI0 ho ‹_›).1
 
 /-- `BaseTag.create_feature` -/
-theorem lu_createFeature {g g' : Graph} (hI : SideInv N M g) {p : Path} {data : Option Nat} {lt : String} {o : Loc}
-    (hr : resolve g rootLoc p = some o) (ho : N ≤ o.key) (hx : ∀ t, data = some t → N ≤ t)
-    (hop : createFeature g p data lt = .ok g') : LocalUpd N M g g' := by
+theorem lu_createFeature {g g' : Graph} (hI : SideInv S M g) {p : Path} {data : Option Nat} {lt : String} {o : Loc}
+    (hr : resolve g rootLoc p = some o) (ho : S o.key) (hx : ∀ t, data = some t → S t)
+    (hop : createFeature g p data lt = .ok g') : LocalUpd S M g g' := by
   unfold createFeature at hop
   simp only [hr] at hop
   repeat' split at hop
   all_goals (try cases hop)
   all_goals
     have ht := hx _ rfl
-    have h0 := lu_freshId (N := N) (M := M) g
+    have h0 := lu_freshId (S := S) (M := M) g
     have hI0 := h0.inv hI
     have h1 := lu_ensureGroup hI0 "features" ho
     have hc := ensureGroup_ge hI0 "features" ho
